@@ -19,9 +19,10 @@ def mask (f : Fmt) : Int := Py.shlT 1 (width f) - 1
 /-- `intToFixedPoint(v)`; `none` = raises -/
 def intToFixedPoint (f : Fmt) (v : Int) : Option Int :=
   if v < 0 && f.sw == 0 then none
-  else if f.iw - 1 < 0 then none                      -- 1 << (iw-1): ValueError negative shift count
+  else if f.iw < 0 then none                          -- 1 << iw: ValueError negative shift count
   else
-    let maxv := Py.shlT 1 (f.iw - 1)
+    let maxv := Py.shrT (Py.shlT 1 f.iw) 1            -- (1 << iw) >> 1 = 2**(iw-1); 0 when there are no integer bits (repo commit b11b379;
+                                                      --   before it: `1 << (iw-1)`, which raised for iw = 0)
     if v > maxv then none else some (Py.land (Py.shlT v f.fw) (mask f))
 
 /-- `floatToFixedPoint(v)`: `int(v * (1 << fw)) & mask` -/
@@ -35,7 +36,7 @@ def floatToFixedPoint (f : Fmt) (v : PyFloat) : Option Int :=
   | _ => none                                          -- int(inf) / int(nan) raise
 
 /-- `add`, `sub`, `mult` on raw encodings (`self.v`, `b.v`).  Each of them first builds the result object with
-    `FixedPoint(sw, iw, fw, 0)`, i.e. runs `intToFixedPoint(0)`, which raises for `iw = 0` (`1 << (iw-1)`). -/
+    `FixedPoint(sw, iw, fw, 0)`, i.e. runs `intToFixedPoint(0)` (which raised for `iw = 0` before repo commit b11b379). -/
 def add (f : Fmt) (a b : Int) : Option Int := do
   let _ ← intToFixedPoint f 0
   return Py.land (a + b) (mask f)
@@ -45,6 +46,7 @@ def sub (f : Fmt) (a b : Int) : Option Int := do
 def mult (f : Fmt) (a b : Int) : Option Int := do
   let _ ← intToFixedPoint f 0
   let w := width f
+  if w < 1 then none                                  -- signExtend(v, 0, 0): `v >> (w-1)` raises ValueError
   let av := Gen.Helper.signExtend a w (w * 2)
   let bv := Gen.Helper.signExtend b w (w * 2)
   return Py.land (Py.shrT (av * bv) f.fw) (mask f)
